@@ -12,13 +12,14 @@ EXTENDS Integers, Sequences
 
 EntryPoints == {"DecodeAddress", "DecodeCashAddress", "DecodeWIF", "Base58Decode", "Base58CheckDecode", "Bech32Decode",
                 "NewKeyFromString", "NewBlockFromBytes", "NewTxFromBytes", "BloomLoadAndQuery", "MerkleExtract",
-                "GcsFromNBytesAndQuery", "GcsFromBytesAndQuery", "JsonpbUnmarshal"}
+                "GcsFromNBytesAndQuery", "GcsFromBytesAndQuery", "JsonpbUnmarshal", "BlockScan"}
 CpuBaseUs == 50000          \* 50 ms
 CpuQuadNsPerByte2 == 200    \* 200 ns * len^2
 AllocBaseKiB == 8192        \* 8 MiB
 AllocPerByteKiB == 64       \* 64 KiB per input byte
 
-CpuBoundUs(len) == CpuBaseUs + (IF len > 3000 THEN 2000000000 ELSE (CpuQuadNsPerByte2 * len * len) \div 1000)
+\* 200 ns * len^2 = len^2 / 5 microseconds, written so that it stays below 2^31 for len <= 100 000
+CpuBoundUs(len) == CpuBaseUs + (IF len > 100000 THEN 2000000000 ELSE (len \div (1000 \div CpuQuadNsPerByte2) + 1) * len)
 AllocBoundKiB(len) == AllocBaseKiB + (IF len > 1000000 THEN 2000000000 ELSE AllocPerByteKiB * len)
 
 Contract(e) ==
